@@ -88,8 +88,7 @@ def body(chk: Check, *, mc_nodes: int, n_random: int, n_variants: int, deep: int
         progs, exp, r = djc.mc_programs("slots", mode, mc_nodes)
         states += r.distinct
         trans += r.generated
-        obs = djc.real(progs)
-        st = djc.compare_batch(chk, progs, exp, obs, f"mc-slots-{mode}")
+        st = djc.compare_sliced(chk, progs, exp, djc.real, f"mc-slots-{mode}")
         chk.add("mc_pages_replayed", len(progs))
         chk.add("mc_zone", st["zone"])
         if progs:
@@ -150,7 +149,7 @@ def run(tier: str) -> int:
     if tier == "quick":
         body(chk, mc_nodes=3, n_random=1500, n_variants=400, deep=3)
     else:
-        body(chk, mc_nodes=4, n_random=20000, n_variants=4000, deep=4)
+        body(chk, mc_nodes=4, n_random=6000, n_variants=1500, deep=4)
     chk.cov["exhaustive"] = True
     chk.cov["rule"] = ("TLC enumerates every page with <= N nodes over the 'slots' alphabet and the fixed 4-component "
                        "library, x2 context modes, each replayed on the real library; seeded random libraries+pages "
